@@ -10,7 +10,7 @@ def instances(tier, seed):
     for pol in ("ILP", "TSG", "Z3"):
         yield from EI.gen(
             [pol], tier, seed, max_n=3, variants=(0, 1, 2) if th else (0, 1),
-            clusters=("c2", "c1c1", "c2|c1") if th else ("c2", "c1c1"),
+            clusters=("c2", "c1c1", "c2c1", "c2|c1") if th else ("c2", "c1c1", "c2c1"),
             progress=("fresh", "running", "running_long", "completed", "scheduled",
                       "other_running"),
             deadlines=("loose", "tight") if th else ("loose",))
